@@ -137,6 +137,18 @@ def gen_program(rnd, skeleton=None, dump=True):
         B['B2'] = g.body(1, 2) + jmp('J1')
         B['J1'] = g.body(0, 1) + jmp('J')
         B['J'] = g.body(1, 2) + jmp('EX')
+    elif sk == 'nested-join-consts':
+        # constants meeting at nested joins: J is reached from A (x, y known) and from M, itself the join of C and D where y
+        # takes two different constants; every other register is the same on all paths (no flags, no other assignment)
+        x, y, z = rnd.sample(g.regs, 3)
+        k1, k2, k3 = rnd.sample([1, 2, 3, 5, 8, 13, 0x100], 3)
+        B['B0'] = [[(R(x), C(k1))]] + br(g.cond(), 'A', 'B')
+        B['A'] = [[(R(y), C(k2))]] + jmp('J')
+        B['B'] = br(g.cond(), 'C', 'D')
+        B['C'] = [[(R(y), C(k2))]] + jmp('M')
+        B['D'] = [[(R(y), C(k3))]] + jmp('M')
+        B['M'] = jmp('J')
+        B['J'] = [[(R(z), O('+', R(y), R(x)))]] + jmp('EX')
     elif sk == 'self-loop':
         B['B0'] = g.body(1, 2) + [[(R('ECX'), O('&', R('ECX'), C(3)))]] + jmp('LP')
         B['LP'] = g.body(1, 3) + [[(R('ECX'), O('+', R('ECX'), C(-1)))]] + br(R('ECX'), 'LP', 'EX')
@@ -201,7 +213,8 @@ def gen_program(rnd, skeleton=None, dump=True):
 
 
 SKELETONS = ['straight', 'diamond', 'nested-diamond', 'self-loop', 'while', 'loop-through-head', 'nested-loop', 'irreducible',
-             'swap-loop', 'lost-copy', 'pointer-walk', 'store-reload', 'merge-pointer', 'merge-save-restore']
+             'swap-loop', 'lost-copy', 'pointer-walk', 'store-reload', 'merge-pointer', 'merge-save-restore',
+             'nested-join-consts']                 # appended: earlier program ids are unchanged
 
 X86_FUNCS = [
     ("abs", "main:\n  MOV EAX, DWORD PTR [ESP+4]\n  TEST EAX, EAX\n  JNS done\n  NEG EAX\ndone:\n  RET\n"),
@@ -216,6 +229,13 @@ X86_FUNCS = [
     ("ptrloop", "main:\n  MOV ESI, DWORD PTR [ESP+4]\n  MOV ECX, DWORD PTR [ESP+8]\n  AND ECX, 3\n  XOR EBX, EBX\nlp:\n  TEST ECX, ECX\n  JZ done\n  MOV EAX, DWORD PTR [ESI]\n  ADD ESI, 4\n  ADD EBX, EAX\n  DEC ECX\n  JMP lp\ndone:\n  MOV EAX, EBX\n  RET\n"),
     ("saverestore", "main:\n  MOV EAX, DWORD PTR [ESP+4]\n  TEST EAX, 1\n  JZ other\n  ADD EAX, 7\n  JMP join\nother:\n  SHL EAX, 1\njoin:\n  PUSH EAX\n  MOV EAX, 5\n  ADD ECX, EAX\n  POP EAX\n  MOV EDI, EAX\n  ADD EAX, EDI\n  RET\n"),
     ("cmov", "main:\n  MOV EAX, DWORD PTR [ESP+4]\n  MOV ECX, DWORD PTR [ESP+8]\n  CMP EAX, ECX\n  CMOVB EAX, ECX\n  SHL EAX, 2\n  RET\n"),
+    # appended after the second seeding round (ids of the programs above are unchanged)
+    # store through a doubly indirect pointer selected by a branch: the only use of ESI is inside the store address
+    ("dblindirect", "main:\n  MOV ESI, EDX\n  TEST EAX, EAX\n  JNZ join\n  MOV ESI, EBX\njoin:\n  MOV ECX, DWORD PTR [ESI]\n  MOV DWORD PTR [ECX], EDI\n  XOR EAX, EAX\n  RET\n"),
+    # nested joins with constants: J is reached from A (EBX known) and from M, itself a join where EBX is not constant
+    ("nestedjoin", "main:\n  MOV EAX, 5\n  TEST EDX, 1\n  JZ b\n  MOV EBX, 3\n  JMP j\nb:\n  TEST EDX, 2\n  JZ d\n  MOV EBX, 3\n  JMP m\nd:\n  MOV EBX, 4\nm:\n  MOV EDI, 1\nj:\n  LEA ECX, DWORD PTR [EBX+EAX]\n  MOV EAX, ECX\n  RET\n"),
+    # a load assembled from constant stores of different sizes
+    ("constparts", "main:\n  SUB ESP, 8\n  MOV BYTE PTR [ESP], 0x11\n  MOV WORD PTR [ESP+1], 0x2233\n  MOV BYTE PTR [ESP+3], 0x44\n  MOV EAX, DWORD PTR [ESP]\n  ADD EAX, 1\n  ADD ESP, 8\n  RET\n"),
 ]
 
 
